@@ -102,6 +102,27 @@ def run(tape, scenario):
             terms_s[k].pdos = dict(pdos[k])
             terms_f[k].pdos = dict(pdos[k])
         index_of = {id(ln): n for n, ln in enumerate(links)}
+        if tape.chance("c19/same-class-other-layout", 50):
+            # another terminal of the same class whose PDO map puts the same objects
+            # elsewhere (other firmware, other configured PDO assignment), looked at first:
+            # nothing of its layout may stick to the class
+            for k in range(len(specs)):
+                decoy = ebpf_terminal(ec_s, sims[k], specs[k]["use_fmmu"], tclasses[k])
+                decoy.pdos = {key: (SMS["out"] if sm == SMS["in"] else SMS["in"], pos + 3,
+                                    "B" if size != "B" else 6)
+                              for key, (sm, pos, size) in pdos[k].items()}
+                for n, ln in enumerate(links):
+                    if ln["term"] != k:
+                        continue
+                    try:
+                        if ln["how"] in ("process", "process-override"):
+                            getattr(decoy, f"v{n}")
+                        elif ln["how"] == "struct-process":
+                            getattr(decoy, f"ch{n}").x
+                    except Exception as e:
+                        viol("variable-cannot-be-created", f"decoy terminal {k} link {n}: "
+                             f"{type(e).__name__}: {e}", exception=type(e).__name__)
+            world.count("c19/decoy-terminal-of-the-same-class")
 
         def factory(terms):
             def mk(ln, sm):
@@ -170,8 +191,13 @@ def run(tape, scenario):
                     world.count("c19/buffer-replaced-as-by-restart")
                 else:
                     sg_s.current_data[:] = frame
-                for d in devs_s:
-                    d.update()
+                try:
+                    for d in devs_s:
+                        d.update()
+                except Exception as e:
+                    viol("python-path-raised", f"Device.update: {type(e).__name__}: {e}",
+                         exception=type(e).__name__)
+                    break
                 after_s = bytes(sg_s.current_data)
                 # ---- program path
                 sg_f.wkc_errors = 1
@@ -179,14 +205,23 @@ def run(tape, scenario):
                 for d in dgrams:                      # user space sends it sterile
                     if d.hdr_pos + 14 in {w + 14 for w in writer_bytes}:
                         pass
-                action, inst = env.kernel.run_xdp(prog, pkt)
+                try:
+                    action, inst = env.kernel.run_xdp(prog, pkt)
+                except Exception as e:
+                    viol("program-path-fault", f"{type(e).__name__}: {e}",
+                         exception=type(e).__name__)
+                    break
                 after_f = bytes(pkt[14:])
                 if action != 3:
                     viol("group-program-did-not-tx", f"action {action}")
                 # ---- oracles
                 for ds, df in zip(devs_s, devs_f):
                     for i, ln in enumerate(ds.ins):
-                        a = sg_s.pdo_assign[terms_s[ln["term"]]][SyncManager.IN]
+                        a = sg_s.pdo_assign[terms_s[ln["term"]]].get(SyncManager.IN)
+                        if a is None:
+                            viol("no-region-for-variable", f"{ln}: the group reserved no "
+                                 f"input region for its terminal")
+                            continue
                         area = frame[a:a + specs[ln["term"]]["in_sz"]]
                         want = wl.expected_value(ln, area)
                         got_s = getattr(ds, f"vi{i}")
@@ -202,7 +237,11 @@ def run(tape, scenario):
                 model = bytearray(frame)
                 for ds in devs_s:
                     for ln in ds.outs:
-                        a = sg_s.pdo_assign[terms_s[ln["term"]]][SyncManager.OUT]
+                        a = sg_s.pdo_assign[terms_s[ln["term"]]].get(SyncManager.OUT)
+                        if a is None:
+                            viol("no-region-for-variable", f"{ln}: the group reserved no "
+                                 f"output region for its terminal")
+                            continue
                         n = specs[ln["term"]]["out_sz"]
                         area = bytearray(model[a:a + n])
                         wl.apply_output(ln, area, ln["value"])
